@@ -149,6 +149,29 @@ def enum_error():
     return LookupError
 
 
+class Runaway(Exception):
+    """An encoding grew past ENCODE_CAP: no menu value is that large, so state is leaking between
+    values (e.g. a shared mutable default that every decode appends to)."""
+
+
+ENCODE_CAP = 1 << 20
+
+
+def cap_streams():
+    """Every BytearrayStream (also the inner ones the writers build) refuses to grow past the cap,
+    so that a check meets runaway growth as a prompt exception instead of a hang."""
+    if getattr(cutils.BytearrayStream, '_verif_capped', False):
+        return
+    plain = cutils.BytearrayStream.write
+
+    def write(self, b):
+        if len(self.buffer) + len(b) > ENCODE_CAP:
+            raise Runaway("an encoding exceeds %d bytes" % ENCODE_CAP)
+        return plain(self, b)
+    cutils.BytearrayStream.write = write
+    cutils.BytearrayStream._verif_capped = True
+
+
 def encode(obj, kv):
     s = cutils.BytearrayStream()
     obj.write(s, kmip_version=kv)
